@@ -5,6 +5,9 @@ from . import common as C
 from . import kani as K
 
 
+MAX_REPLAYS = 2
+
+
 def _playback_name(code):
     m = re.search(r"fn (kani_concrete_playback_\w+)", code)
     return m.group(1) if m else None
@@ -66,6 +69,10 @@ def decide(out, crate, gen_fn, target, specs, jobs=8, harness_timeout=900, total
         print(tail)
         out.inconclusive.append("cargo kani produced no harness results for %s (compile error against current /repo source? see %s)" % (target, log))
         return recs
+    replayed_ok = 0
+    known = C.load_known(out.pid)
+    # replay unknown failures first so a listed finding never hides a new one
+    specs = sorted(specs, key=lambda s: s.get("key", s["h"]) in known)
     for s in specs:
         r = recs.get(s["h"])
         base = dict(bounds=s.get("bounds", ""), claim=s.get("claim", ""), harness=s["h"])
@@ -90,8 +97,15 @@ def decide(out, crate, gen_fn, target, specs, jobs=8, harness_timeout=900, total
             out.add(s["h"], "kani", "inconclusive", r["time_s"], reason="unwinding assertion failed: bound too small for the current code", **base)
             out.inconclusive.append("%s: unwinding assertion failed - loop bound no longer covers the code" % s["h"])
             continue
-        # a real failed check: replay before reporting
+        # a real failed check: replay before reporting.  Replays are expensive (a second
+        # solver run plus a native test build); after MAX_REPLAYS reproduced violations the
+        # remaining failed harnesses are recorded in the evidence but not replayed/reported.
+        if replayed_ok >= MAX_REPLAYS:
+            out.add(s["h"], "kani", "failed-not-replayed", r["time_s"], failed_checks=r["failed_checks"][:5], **base)
+            continue
         ok, path, detail = replay_failure(crate, gen_fn, target, s["file"], s["h"], stubbing=stubbing)
+        if ok:
+            replayed_ok += 1
         what = "%s failed: %s" % (s["h"], "; ".join(r["failed_checks"][:3]))
         if ok:
             out.add(s["h"], "kani", "violated", r["time_s"], failed_checks=r["failed_checks"][:5], replay=path, **base)
